@@ -105,6 +105,9 @@ func registry() map[string]PropSpec {
 			{Pkg: ".", Name: "c10_envblock", Quick: map[string]int{"entries": 2, "callervars": 1, "valueshapes": 2}, Thorough: map[string]int{"entries": 2, "callervars": 1, "valueshapes": 3}, Unwind: [2]int{40, 60}, Budget: [2]int{300, 2400},
 				Models: []string{"github.com/buildkite/interpolate.Interpolate=vpModelInterpolate"}, Validate: []string{"interpolate"},
 				What: "interpolateEnvBlock/Interpolate equal the in-order fold of the property statement: names and values expanded under caller env + earlier entries, rewritten in place, exported to the caller env unless runtime precedence applies, case-(in)sensitive caller env, later step strings expanded under the final env"},
+			{Pkg: ".", Name: "c10_escapes", Quick: map[string]int{}, Unwind: [2]int{40, 60},
+				Models: []string{"github.com/buildkite/interpolate.Interpolate=vpModelInterpolate"}, Validate: []string{"interpolate"},
+				What:   "env block entries whose value (and optionally name) is one of ten escape shapes ($$A, a$$, a\\$, \\$, a lone or trailing $, \\$A, ...): recorded under the expanded name with the expanded value, exported to the caller, and seen expanded by later entries and steps"},
 			{Pkg: ".", Name: "c10_collisions", Quick: map[string]int{"entries": 3}, Thorough: map[string]int{"entries": 4}, Unwind: [2]int{40, 60},
 				Models: []string{"github.com/buildkite/interpolate.Interpolate=vpModelInterpolate"},
 				What:   "names that collide after expansion: no panic, and the block equals the ordered-map model of the same in-place renames (colliding entry dropped, renamed entry keeps its position, dropped entries not visited)"},
